@@ -7,10 +7,13 @@ import (
 	"fmt"
 	"os"
 	"path/filepath"
+	"reflect"
+	"runtime"
 	"runtime/debug"
 	"runtime/pprof"
 	"sort"
 	"strconv"
+	"strings"
 	"time"
 )
 
@@ -87,6 +90,14 @@ func main() {
 	r.count("packages", len(w.Pkgs))
 	r.count("module functions (SSA, incl. closures and generic instances)", len(w.ModFns))
 	for _, f := range pd.Rules {
+		// development aid: VERIF_ONLY_RULE=<substring of the rule function's name> runs a single rule (the run is then
+		// reported as a checker error, so that it can never pass for a whole property)
+		if only := os.Getenv("VERIF_ONLY_RULE"); only != "" {
+			if !strings.Contains(runtime.FuncForPC(reflect.ValueOf(f).Pointer()).Name(), only) {
+				continue
+			}
+			r.errorf("VERIF_ONLY_RULE=%s: partial run", only)
+		}
 		f(w, r)
 	}
 	if *tier == "thorough" {
